@@ -106,7 +106,7 @@ def gen_case(rng: random.Random, tier: str, bias: str = ''):
                                 # how the consumer stops early: close() | an exception thrown into the generator at
                                 # its yield (what Ctrl-C or Thread.throw amounts to) | (async) the consuming task is
                                 # cancelled while it waits for the next result
-                                stop_mode=rng.choice(['close', 'close', 'throw', 'cancel'])))
+                                stop_mode=rng.choice(['close', 'close', 'throw', 'cancel', 'leave'])))
     early = rng.choice([0.0, 0.02, 0.05, 0.1]) if bias != 'abandon' else rng.choice([0.03, 0.08, 0.15])
     ch = rng.choice([('random', early), ('random', early), ('sticky', 0.2, early), ('sticky', 0.05, early),
                      ('pct', 2, 600, early), ('pct', 3, 600, early)])
@@ -129,6 +129,9 @@ def nontrivial(case, res):
 
 
 def run_case(case):
+    has_leave = case['kind'] == 'sync' and any(sp['kind'] == 'stream' and sp.get('stop_mode') == 'leave' and sp['stop_after'] is not None
+                                               for sp in case['callers'])
+    exit_busy = bool(case.get('exit_busy')) and not has_leave
     ev = []
     log = ev.append
     cap = case['cap']
@@ -264,7 +267,7 @@ def run_case(case):
                     box.setdefault('streams', []).append((spec, got, endk))
 
             await asyncio.gather(*[caller(spec) for spec in case['callers']])
-            if case.get('exit_busy'):
+            if exit_busy:
                 try:
                     await srv.__aexit__(None, None, None)
                     await srv.__aenter__()
@@ -357,6 +360,13 @@ def run_case(case):
                             else:
                                 got.append((x[0], ('other', repr(y))))
                             if spec['stop_after'] is not None and len(got) == spec['stop_after']:
+                                if spec.get('stop_mode') == 'leave':
+                                    # `break` out of the loop with the generator still referenced: it is closed only
+                                    # AFTER the server has been left (what `for x, y in zip(data, stream): ... break`
+                                    # inside `with server:` amounts to)
+                                    box.setdefault('open_streams', []).append(gen)
+                                    endk = 'closed'
+                                    break
                                 if spec.get('stop_mode', 'close') in ('throw', 'cancel'):
                                     try:
                                         gen.throw(StopConsumer())
@@ -379,7 +389,7 @@ def run_case(case):
                 t.start()
             for t in ts:
                 t.join()
-            if case.get('exit_busy'):
+            if exit_busy:
                 try:
                     srv.__exit__(None, None, None)
                     srv.__enter__()
@@ -391,12 +401,17 @@ def run_case(case):
             # follow-up requests with an unbounded deadline: the server must still answer (C07)
             box['gather_alive'] = _alive(srv)
             r = case['nreq']
-            for k in range(case['followups']):
-                do_call(r + k, 1, False, FOREVER, False)
-            # let everything come to rest (a sleep beyond the early horizon expires only when no thread is enabled)
-            time.sleep(1000)
-            box['idle_backlog'] = srv.backlog
-            box['gather_alive2'] = _alive(srv)
+            if has_leave:
+                # a stream was left open: leave the server at once, while its feeder still has elements to feed
+                box['idle_backlog'] = 0
+                box['gather_alive2'] = box['gather_alive']
+            else:
+                for k in range(case['followups']):
+                    do_call(r + k, 1, False, FOREVER, False)
+                # let everything come to rest (a sleep beyond the early horizon expires only when no thread is enabled)
+                time.sleep(1000)
+                box['idle_backlog'] = srv.backlog
+                box['gather_alive2'] = _alive(srv)
             detsched.SCHED.on_step.remove(sample)
         try:
             srv.__exit__(None, None, None)
@@ -404,6 +419,15 @@ def run_case(case):
             raise
         except BaseException as e:  # noqa
             box['exit_error'] = repr(e)
+        for g in box.pop('open_streams', []):
+            t0c = detsched.now()
+            try:
+                g.close()
+            except detsched.Abort:
+                raise
+            except BaseException as e:  # noqa
+                box['exit_error'] = 'closing a stream after the server was left: ' + repr(e)
+            box['late_close'] = max(box.get('late_close', 0.0), detsched.now() - t0c)
         box['leaked'] = [ts_.name for ts_ in detsched.SCHED.order if not ts_.done and ts_.tid not in base_threads]
         return box
 
@@ -491,6 +515,10 @@ def run_case(case):
     for r, cnt in st['calls'].items():
         if cnt != 1:
             mon.append(dict(prop='C02', rule='served-twice', detail=f'request {r} served {cnt} times'))
+    if box.get('late_close', 0.0) > 5.0:
+        mon.append(dict(prop='C07', rule='abandoned-stream-close-late',
+                        detail=f'closing a stream that was abandoned (break, not closed) before the server was left took '
+                               f'{box["late_close"]:.0f} s of blocked waiting (its feeder was left waiting for room in a stopped server)'))
     # C06: slots returned
     if box.get('reenter_backlog'):
         mon.append(dict(prop='C06', rule='slot-leak-after-reenter',
@@ -511,7 +539,9 @@ def model_lines(cid, case, res):
     """Lines for `drv ledger`: call / emit (worker finished) / outcome events and every change of the
     public `Server.backlog`."""
     n = case['nreq'] + case['followups']
-    if n > MODEL_MAX_REQUESTS or case.get('exit_busy'):
+    if n > MODEL_MAX_REQUESTS or case.get('exit_busy') or \
+            (case['kind'] == 'sync' and any(sp['kind'] == 'stream' and sp.get('stop_mode') == 'leave' and sp['stop_after'] is not None
+                                             for sp in case['callers'])):
         return []        # (exit_busy: two sessions; the ledger model describes one: monitors only)
     if case['kind'] == 'async' and any(q.get('cancel') is not None for sp in case['callers'] if sp['kind'] == 'call' for q in sp['reqs']):
         return []        # cancelled calling tasks: monitors only (the model's callers leave by outcome or deadline)
